@@ -41,6 +41,30 @@ def check(ctx: Ctx) -> None:
     r3(ctx)
     r4(ctx)
     r5(ctx)
+    r2_budget_root(ctx)
+
+
+def r2_budget_root(ctx: Ctx) -> None:
+    """The budget folder is the parent of the config directory; output and data paths are resolved under it.  A --config given with a trailing slash
+    or as a relative path has no reliable parent until it is made absolute: every command normalises it before anything is derived from it."""
+    proj = ctx.proj
+    n = 0
+    for short in ('commands.run.cmd_run', 'commands.explain.cmd_explain', 'commands.discover.cmd_discover', 'commands.diag.cmd_diag'):
+        f = proj.funcs.get(f'tally.{short}') or (proj.func(short) if short.rsplit('.', 1)[0] in {m.short for m in proj.modules.values()} else None)
+        if f is None:
+            continue
+        fl = get_flow(proj, f)
+        for s in fl.cfg.stmts():
+            if isinstance(s, ast.Assign) and len(s.targets) == 1 and isinstance(s.targets[0], ast.Name) and s.targets[0].id == 'config_dir':
+                at_ = fl.atoms(s.value, s)
+                if not any(a.startswith('attr:args.config') for a in at_):
+                    continue
+                n += 1
+                ok = bool({'call:abspath', 'call:realpath', 'call:resolve'} & at_)
+                ctx.check(ok, 'C20.R2', f, 'config-dir-absolute', 'the --config directory is made absolute before its parent is taken as the budget folder',
+                          f'{src(s)[:50]!r}: the directory is used as typed; `--config budget/config/` then has `budget/config` as its parent and the report is written to '
+                          f'budget/config/output instead of the configured output location', s)
+    ctx.need(n >= 2, f'C20.R2: only {n} commands found that take their config directory from --config')
 
 
 def _self_test(ctx: Ctx) -> None:
